@@ -510,6 +510,16 @@ Proof.
   rewrite Hn4. cbn [bind]. rewrite Hdig. exact Ht.
 Qed.
 
+End Idents.
+
+Section Ops.
+Variable uni_letter uni_digit : Z -> bool.
+Variable inp : bstr.
+Variable base : Z.
+Notation ilen := (Z.of_nat (length inp)).
+Notation steps := (steps uni_letter uni_digit inp base).
+Notation span := (span inp).
+
 (* ?[ and ?: *)
 Lemma lex_q2 l c t s : span l [] (63 :: c :: s)%N ->
   (c = 91 /\ t = itemQuestionKey \/ c = 58 /\ t = itemElvis)%N ->
@@ -682,4 +692,4 @@ Proof.
   change (assoc_s [61%N; 61%N] arith_items) with (Some itemEq). unfold emit_to. rewrite Hem. reflexivity.
 Qed.
 
-End Idents.
+End Ops.
